@@ -89,6 +89,21 @@ func init() {
 		r := x.CheckedRemove(u32(a[1]))
 		return bstr(r) + " " + d32(x)
 	})
+	// addstride x start step count : AddMany of start + i*step, i < count (e.g. one value in each of the 65536 chunks)
+	reg("addstride", func(e *env, a []string) string {
+		need(a, 4)
+		x := e.b(a[0])
+		start, step, cnt := u64(a[1]), u64(a[2]), u64(a[3])
+		if cnt > 1<<20 || step == 0 || (cnt > 0 && start+(cnt-1)*step >= 1<<32) {
+			panic(skipErr{"stride out of range"})
+		}
+		vals := make([]uint32, cnt)
+		for i := range vals {
+			vals[i] = uint32(start + uint64(i)*step)
+		}
+		x.AddMany(vals)
+		return d32(x)
+	})
 	// addmanyfrom x v n : AddMany([m, m+2, m+4, …]) (n+1 values, clipped below 2^32) where m is the smallest member >= v:
 	// a batch whose FIRST value is already present and whose later values of the same chunk are mostly new
 	reg("addmanyfrom", func(e *env, a []string) string {
